@@ -43,7 +43,7 @@ class C09(Check):
                    'well-posed problems use quasi-uniform breakpoints (interval widths within a factor 3) and weights within 3 '
                    'decades, so cond(A^T W A) <~ 1e8 and the 1e-7*max|y| tolerance on fitted values has margin; wildly uneven '
                    'knot vectors legitimately trigger the fit\'s min_influence guard (status -1) and are not asserted to give 0']
-    REQUIRED_COUNTERS = ('canary_sequences', 'status0_optimality_checked', 'wellposed_status0', 'maskpoints_entered', 'cholesky_fallback_entered', 'status_minus1', 'status_minus2',
+    REQUIRED_COUNTERS = ('wellposed_zero_weight_points_outside_the_knots', 'solve_rhs_be_f8', 'solve_rhs_f4', 'canary_sequences', 'status0_optimality_checked', 'wellposed_status0', 'maskpoints_entered', 'cholesky_fallback_entered', 'status_minus1', 'status_minus2',
                          'spd_factorisations', 'nonpd_signalled', 'nonfinite_signalled', 'zero_weight_invariance_checked')
     CASE_CPU_S = 60
 
@@ -104,6 +104,15 @@ class C09(Check):
             # counts (1e-12) to micro-flux units (1e12)
             if rng.random() < 0.35:
                 w = w * 10 ** rng.uniform(-12, 12)
+            if rng.random() < 0.3:
+                # zero-weight pixels beyond both ends of the good data (the spline set is then built from the good points only,
+                # as iterfit does, and the fit receives all points)
+                w[0] = w[-1] = float(np.median(w[w > 0]))
+                lo = -np.sort(g.uniform(0.01, 0.8, rng.randint(1, 4)))[::-1]
+                hi = 10 + np.sort(g.uniform(0.01, 0.8, rng.randint(0, 3)))
+                x = np.concatenate([lo, x, hi])
+                w = np.concatenate([np.zeros(lo.size), w, np.zeros(hi.size)])
+                n = x.size
             scale = 10 ** rng.uniform(-3, 3)
             y = scale * (np.sin(x * rng.uniform(0.3, 2)) + g.normal(0, 0.1, n))
             return {'kind': cls, 'x': x.tolist(), 'y': y.tolist(), 'w': w.tolist(), 'nord': k, 'bkpt': edges.tolist(),
@@ -240,7 +249,10 @@ class C09(Check):
         k = case['nord']
         with warnings.catch_warnings():
             warnings.simplefilter('ignore')
-            s = B.bspline(x, nord=k, bkpt=np.array(case['bkpt']))
+            xg = x[w > 0]                     # the spline set is built from the good points (all points, unless some lie outside)
+            inside = (x >= xg.min()) & (x <= xg.max())
+            out.count('wellposed_zero_weight_points_outside_the_knots', int((~inside).sum()))
+            s = B.bspline(xg, nord=k, bkpt=np.array(case['bkpt']))
             st, yfit = s.fit(x, y, w)
         if not out.expect(st == 0, 'status', 'well-supported fit returned status %r' % (st,)):
             return
@@ -250,7 +262,7 @@ class C09(Check):
         c, rank, sv = BR.wls(A, y, w)
         ys = max(float(np.abs(y).max()), 1e-300)
         fit_ref = A @ c
-        dev = float(np.abs(yfit - fit_ref).max())
+        dev = float(np.abs(yfit - fit_ref)[inside].max())
         # the code solves the normal equations: error ~ cond(A sqrt(W))^2 * eps, the reference (lstsq) ~ cond * eps
         cond = float(sv[0] / sv[-1]) if sv[-1] > 0 else np.inf
         ftol = max(1e-7, 100 * 1.1e-16 * cond ** 2)
@@ -271,23 +283,23 @@ class C09(Check):
         # polynomial of degree < order is reproduced
         pc = g.normal(size=k)
         p = np.polyval(pc, (x - 5) / 5)
-        s2 = B.bspline(x, nord=k, bkpt=np.array(case['bkpt']))
+        s2 = B.bspline(xg, nord=k, bkpt=np.array(case['bkpt']))
         st2, pf = s2.fit(x, p, w)
         ps = max(float(np.abs(p).max()), 1e-300)
-        out.expect(st2 == 0 and float(np.abs(pf - p).max()) <= max(1e-8, ftol / 10) * ps, 'polynomial',
-                   'polynomial of degree %d not reproduced: dev %.3g' % (k - 1, float(np.abs(pf - p).max()) / ps))
+        out.expect(st2 == 0 and float(np.abs(pf - p)[inside].max()) <= max(1e-8, ftol / 10) * ps, 'polynomial',
+                   'polynomial of degree %d not reproduced: dev %.3g' % (k - 1, float(np.abs(pf - p)[inside].max()) / ps))
         # zero-weight points do not influence the coefficients (bit-identical)
         if np.any(w == 0):
             y3 = y.copy()
             y3[w == 0] += g.normal(0, 1e3 * ys, int((w == 0).sum()))
-            s3 = B.bspline(x, nord=k, bkpt=np.array(case['bkpt']))
+            s3 = B.bspline(xg, nord=k, bkpt=np.array(case['bkpt']))
             st3, f3 = s3.fit(x, y3, w)
             out.expect(st3 == 0 and np.array_equal(s3.coeff, s.coeff), 'zero-weight', 'altering y at zero-weight points changed the coefficients',
                        maxdiff=float(np.abs(s3.coeff - s.coeff).max()))
             out.count('zero_weight_invariance_checked')
         # linearity
         al, be = g.normal(), g.normal()
-        s4 = B.bspline(x, nord=k, bkpt=np.array(case['bkpt']))
+        s4 = B.bspline(xg, nord=k, bkpt=np.array(case['bkpt']))
         st4, f4 = s4.fit(x, al * y + be * p, w)
         lin = al * s.coeff + be * s2.coeff
         ls = max(float(np.abs(lin).max()), abs(al) * cs, 1e-300)
@@ -314,13 +326,21 @@ class C09(Check):
         e1 = float(np.abs(Ld @ Ld.T - A).max())
         out.expect(e1 <= 1e-10 * na * n, 'cholesky', 'L L^T != A: %.3g (|A| %.3g)' % (e1, na))
         bb = np.concatenate([b, np.zeros(bw)])
+        # the right-hand side as a caller may hold it: native float64, big-endian float64 (FITS), float32
+        rdt = ['f8', 'f8', '>f8', 'f4'][(n + bw) % 4]
+        bb = bb.astype(rdt)
+        bkeep = bb.copy()
+        b = bb[:n].astype('f8')
         x = B.cholesky_solve(L, bb)
+        out.count('solve_rhs_' + rdt.replace('>', 'be_'))
         out.expect(x.shape == bb.shape, 'cholesky', 'solution not padded like b')
-        xr = np.linalg.solve(A, b)
+        out.expect(bool(np.array_equal(bb, bkeep)), 'cholesky', 'cholesky_solve modified its right-hand side')
+        x = np.asarray(x, dtype='f8')
         cond = float(np.linalg.cond(A))
         e2 = float(np.abs(A @ x[:n] - b).max())
-        out.expect(e2 <= 1e-10 * max(na * float(np.abs(x[:n]).max()), float(np.abs(b).max())) * n, 'cholesky',
-                   'A x != b: residual %.3g (cond %.3g)' % (e2, cond))
+        rtol = 1e-10 if rdt != 'f4' else 3e-6 * max(cond, 1.0)
+        out.expect(e2 <= rtol * max(na * float(np.abs(x[:n]).max()), float(np.abs(b).max())) * n, 'cholesky',
+                   'A x != b: residual %.3g (cond %.3g, right-hand side %s)' % (e2, cond, rdt))
         out.count('spd_factorisations')
         out.nontrivial = n >= 4 and bw >= 2
 
